@@ -42,11 +42,11 @@ func NewTransformer(prog ssa.Program, llvmTarget string, targetAbi string, mode 
 		tr.sys = &TypeInfoRiscv32{tr, targetAbi}
 	case "amd64":
 		tr.sys = &TypeInfoAmd64{tr}
-	case "arm64":
+	case "arm64", "aarch64":
 		tr.sys = &TypeInfoArm64{tr}
 	case "arm":
 		tr.sys = &TypeInfoArm{tr}
-	case "wasm":
+	case "wasm", "wasm32":
 		tr.sys = &TypeInfoWasm{tr}
 	case "riscv64":
 		tr.sys = &TypeInfoRiscv64{tr, targetAbi}
